@@ -58,7 +58,7 @@ class Samplers(Part):
             for d in (1, 2, 3, 5, 6, 8, 12):
                 cases.append({"kind": "halton", "n": n, "d": d, "cseed": rng.randrange(1 << 30)})
         # long Halton sequences: indices beyond the exact powers of the small prime bases (2^10, 3^5 = 243, 5^4, 7^3, 11^2 ... ; thorough 17^3)
-        for n, d in ((260, 2), (700, 3), (1100, 5)) if ctx.quick else ((260, 2), (700, 3), (1100, 5), (2500, 6), (5000, 8), (7000, 12)):
+        for n, d in ((260, 2), (700, 3), (1100, 5)) if ctx.quick else ((260, 2), (700, 3), (1100, 5), (2500, 6), (7000, 6), (4900, 8), (4900, 10)):      # denominators squared stay below 2^31 (17^4 would not)
             cases.append({"kind": "halton", "n": n, "d": d, "cseed": rng.randrange(1 << 30)})
         for k in (2, 3, 4, 5):
             for d in (1, 2, 3, 4):
